@@ -258,7 +258,7 @@ theorem populate_noNew {inj : BSt → Nat → BSt} (hq : QuietInj inj) (s : BSt)
   generalize (if sb.cfg.refreshAfterSample = true then refreshCache (inj sb 1) else inj sb 1) = s2 at h2 ⊢
   refine foldl_inv (fun a : BSt × Nat => a.1.newFlag = false) _ ?_ _ _ h2
   intro a i ha'
-  exact readQueue_closed noNew_closedQ inj hinj _ i _ _ _ (hinj _ 2 ha')
+  exact readQueue_closed (fun _ _ h f => f.newFlag.trans h) noNew_closedQ inj hinj _ i _ _ _ (hinj _ 2 ha')
 
 /-- **the idle pass drains the failure counters**: from any state in which the cache invariant holds (every reachable
     state), a poll whose read pass finds nothing, run with a runner that takes no frontend step, ends with `fail = 0`
